@@ -222,6 +222,8 @@ private:
     // Expressions //
     //-------------//
     virtual Action visitIdentifierName(const IdentifierNameSyntax*) override;
+    virtual Action visitExtGNU_EnclosedCompoundStatementExpression(
+            const ExtGNU_EnclosedCompoundStatementExpressionSyntax*) override;
 
     //------------//
     // Statements //
